@@ -51,7 +51,8 @@ def main(tier, replay=None):
         "only the two permitted steps (append field with larger number to an extensible message, grow an "
         "extensible array) at any depth; the claim is about what exists in the older schema",
         "the sender's bytes are checked against Wire!Enc of the newer schema before the receiver's result is judged",
-        "Go runtime: not executed (no toolchain); its skip formula is the same text as the Python one",
+        "Go runtime: not executed (no toolchain); its two skip formulas are read from lib/go/bitproto.go and evaluated "
+        "by TLC against the specified targets over a bounded domain",
     ]
     inv = ("InBounds", "DecRefines", "WireRoundTrip")
     if tier == "quick":
@@ -160,6 +161,22 @@ def main(tier, replay=None):
                     cc.event_src.append(len(cc.values) - 1)
     finally:
         worker.close()
+    # Go runtime: not executable here -- its skip formulas are read from the source and TLC evaluates them
+    # against the specified targets over a bounded domain (inspection made mechanical)
+    import os
+    from .. import goparse
+    try:
+        with open(os.path.join(common.REPO_LIBGO, "bitproto.go")) as f:
+            defs = goparse.skip_formulas(f.read())
+    except goparse.GoParseError as e:
+        raise common.MachineryError("cannot read the Go skip formulas: %s" % e)
+    gocase = pywire.PyCase("c05-go-skip", {"rtype": {"k": "msg", "name": "X", "ext": False, "fields": [
+        {"num": 1, "name": "a", "t": {"k": "bool"}}, {"num": 2, "name": "b", "t": {"k": "bool"}}]},
+        "files": {"lib/go/bitproto.go": []}, "top": "X"}, [])
+    gocase.events.append({"ev": "GoSkip", "defs": defs})
+    gocase.event_src.append(-1)
+    pywire.validate_and_decide(rep, [gocase], count_events=("GoSkip",),
+                               sample_fn=lambda c: {"go_skip_formulas": "arraySkip / messageSkip read from lib/go/bitproto.go"})
     rep.cov["rule"] = ("random extensible-rich base schemas x chains of 1..N permitted steps (steps biased to hit "
                        "nested/enclosing extensible nodes of the previous step) x values of the newer versions; "
                        "one evaluation = one decode of newer-schema bytes by older-schema code (Python and C); "
